@@ -8,7 +8,7 @@ SPEC = {
     "in_domain": "C29.in_domain",
     "model_prop": "fun k => implb (C29.in_domain k) (C29.model_roundtrip k)",
     "n_quick": 600,
-    "n_thorough": 20000,
+    "n_thorough": 8000,
     "rule": "see harness/props/c29.go: 0-6 extra columns over all 12 fixed-width types, 0-6 rows (0-40 thorough), aligned or not, "
             "~25% malformed; distinct = distinct input; non-trivial = inside the theorem's guard with >=1 row and >=2 columns",
     "trusted_base": [
